@@ -11,7 +11,7 @@ CONSTANTS
   GenBlockTypes = {"b", "c", "g", "i", "s", "t", "u", "w"}
   GenNoteKinds = {"title", "D", "R", "N", "E", "I", "M"}
   GenSubTypes = {"B", "C", "S", "T", "W"}
-  Terse = FALSE
-  Rich = TRUE
+  Terse = 0
+  Rich = 2
   Phased = TRUE
 CHECK_DEADLOCK FALSE
